@@ -220,7 +220,9 @@ func TestProp_Tokens(t *testing.T) {
 					}
 					// known finding: keep the model in step with reality
 					x.status = "used"
-					registered = append(registered, a)
+					if !skipStorage {
+						registered = append(registered, a)
+					}
 					return
 				case !got && expect:
 					if x.corrupt == "" && x.extended == "" && !removalFails {
